@@ -13,7 +13,9 @@ for d in sorted(glob.glob("/verif/seeded/*/")):
     subprocess.run(["git", "-C", "/repo", "checkout", "--", "."], check=True)
     a = subprocess.run(["git", "-C", "/repo", "apply", d + "patch.diff"], capture_output=True, text=True)
     if a.returncode != 0:
-        rows.append((sid, prop, "patch does not apply", 0)); continue
+        rows.append((sid, prop, "patch does not apply", 0))
+        print("%-55s %s PATCH DOES NOT APPLY (re-base it): %s" % (sid, prop, a.stderr.strip()[:120]), flush=True)
+        continue
     t0 = time.time()
     try:
         r = subprocess.run(["bin/check", prop, "quick"], cwd="/verif", capture_output=True, text=True, timeout=3000)
